@@ -49,10 +49,26 @@ Proof.
   eapply is_derive_ext.
   { intros t. rewrite (sbend_body_nz L k1 t E Hk). reflexivity. }
   assert (Hkx' : k1 + hx * hx <> 0) by exact Hkx.
-  split49 i j Hi Hj; cbv zeta; cbv [dsbend_dhx zrow]; mcbv;
+  unfold Rsqr in HC, HS.
+  split49 i j Hi Hj; cbv zeta; cbv [dsbend_dhx zrow]; mcbv; unfold Rsqr;
   first
   [ eapply is_derive_cst_ext; intros t; reflexivity
-  | unfold Rsqr; auto_derive;
+  | auto_derive;
     [ repeat split; first [exact I | exact Hkx | exact Hkx' | eexists; exact HC | eexists; exact HS]
     | rewrite ?(Dfun' _ _ _ HC), ?(Dfun' _ _ _ HS); fin_b E ] ].
+Qed.
+
+(** chain rule for hx = angle / length (length <> 0): d/dangle = (1/length) d/dhx *)
+Lemma m7nth_mscale c (D : M7 R) i j : (i < 7)%nat -> (j < 7)%nat -> m7nth (rmscale c D) i j = c * m7nth D i j.
+Proof. intros Hi Hj. split49 i j Hi Hj; reflexivity. Qed.
+Theorem deriv_sbend_angle L k1 angle E : L <> 0 -> k1 <> 0 -> k1 + (angle / L)² <> 0 ->
+  m7_derive (fun a => base_untilted L k1 (a / L) E) angle (rmscale (/ L) (dsbend_dhx L k1 (angle / L) E)).
+Proof.
+  intros HL Hk Hkx i j Hi Hj. rewrite m7nth_mscale by assumption.
+  evar_last.
+  - apply (is_derive_comp (fun h => m7nth (base_untilted L k1 h E) i j) (fun a => a / L) angle
+                          (m7nth (dsbend_dhx L k1 (angle / L) E) i j) (/ L)).
+    + apply deriv_sbend_hx; assumption.
+    + auto_derive; [exact I|]. field. exact HL.
+  - unfold scal; simpl. unfold mult; simpl. ring.
 Qed.
